@@ -6,12 +6,13 @@ import dataflows as DF
 
 PROP = 'C16'
 PROPS_V = 'Props/C16.v'
-COQ_IMPORTS = ['Base.Str', 'Base.Value', 'Proc.RowOps', 'Proc.Resources']
+COQ_IMPORTS = ['Base.Str', 'Base.Value', 'Proc.RowOps', 'Proc.Resources', 'Proc.AutoName']
 RULE = ('cases = packages of 1-5 resources with differing schemas and sizes (0, 1, few, 250; thorough: >1000 rows) x '
         'concatenate (field mappings, selections incl. non-consecutive and empty) / duplicate (position, to_end, batch '
         'sizes 1/7/1000, followed by an in-place edit of the original) / delete_resource / appending sources (iterable, '
         'load tuple, load datapackage, sources); non-trivial = the package changes; distinct = distinct case digest'
-        '; round 4: delete_resource by position from either end')
+        '; round 4: delete_resource by position from either end'
+        '; round 7: automatic names of bare iterables after deletions and concatenations of automatically named resources (unique names, resource count, appended rows intact)')
 TRUSTED = ['Coq 8.16.1 kernel + vm_compute', 'harness/p16.py printers and oracle',
            'KVFile as an ordered map (duplicate\'s store), exercised at several batch sizes',
            'resource selection itself is C10\'s subject; here selections are given as explicit name lists']
@@ -409,9 +410,25 @@ def coq_pkg(p):
     return clist([coq_rsrc(r) for r in p])
 
 
+def crname(name):
+    m = re.fullmatch(r'res_(0|[1-9][0-9]*)', name)
+    return '(Auto %s)' % cnat(int(m.group(1))) if m else '(Other %s)' % cstr(name)
+
+
 def coq_term(case, out):
     if case['kind'] == 'autoname':
-        return None
+        # the model's rule applied to the names that were there when the last iterable was added must give the name the
+        # library gave it
+        if 'error' in out:
+            return None
+        late = [i for i, s_ in enumerate(out['srcs']) if s_ == ['late']]
+        if len(late) != 1:
+            return 'false'
+        before = [n for i, n in enumerate(out['names']) if i != late[0]]
+        if case.get('then_delete') and 'res_%d' % case['then_delete'] not in out['names']:
+            before.append('res_%d' % case['then_delete'])
+        got = crname(out['names'][late[0]])
+        return 'rname_eqb (Auto (auto_index %s)) %s' % (clist([crname(n) for n in before]), got)
     k = case['kind']
     p = input_pkg(case)
     names = [r['name'] for r in p]
